@@ -1,6 +1,6 @@
 //@ tu: libxcm/core/attr_path.c
 //@ enforce: attr_pcomp_parse_index
-//@ pre-unwind: strtol.0:257 strtol.1:257
+//@ pre-unwind: strtol.0:20 strtol.1:20
 //@ props: C10 C19
 //@ defs: -DXV_AP_EXP1
 //@ expect: postcondition>=6 canary=4
